@@ -19,6 +19,7 @@ TIERS = {
 MAX_RAW_PER_CHUNK = 10
 MAX_CLASSES = 12
 MAX_MIN_PER_CLASS = 2
+MINIMISE_BUDGET_S = 120
 
 
 def _family_writes_then_reads(ops):
@@ -220,9 +221,12 @@ def main(prop, tier, runs=None, write=True):
     for case in lists["__raw__"]:
         by_class.setdefault((case["violation"]["kind"], case["violation"].get("op")), []).append(case)
     seen = set()
+    t_min = time.time()
     for cls, cases in list(by_class.items())[:MAX_CLASSES]:
         for case in cases[:MAX_MIN_PER_CLASS]:
-            small, v, used = minimise(case)
+            if violations and time.time() - t_min > MINIMISE_BUDGET_S:
+                break       # enough minimised witnesses; never let reporting run into the command's timeout
+            small, v, used = minimise(case, budget=600 if time.time() - t_min < MINIMISE_BUDGET_S / 2 else 150)
             if v is None:
                 raise pool.HarnessFailure(f"violation did not reproduce in the parent process: {case['origin']}")
             key = json.dumps([small["history"], small["config"]], sort_keys=True)
